@@ -28,6 +28,11 @@ type Schedule struct {
 	Overrides map[string]string `json:"overrides,omitempty"`
 	// Seed of the shuffles.
 	Seed uint64 `json:"seed,omitempty"`
+	// Clock: what time.Now/Since/Until/Sleep inside gengo read (the rewriter routes them here).
+	// "" the machine's clock; "frozen" no time passes; "slow:<ms>" every recorded event (callback or
+	// file-system call) takes <ms> milliseconds; "jumpy" seeded: events take 0-20 ms, now and then the
+	// clock steps forward by an hour or back by half an hour (NTP, a resumed VM).
+	Clock string `json:"clock,omitempty"`
 }
 
 // SiteStat is reported to the driver after a run.
@@ -47,6 +52,7 @@ var (
 
 // Reset installs the schedule of the next run and clears visit counters.
 func Reset(s Schedule) {
+	resetClock(s)
 	mu.Lock()
 	defer mu.Unlock()
 	sched = s
